@@ -34,7 +34,7 @@ func init() {
 			"(quick tier: a deterministic sixth of it); plus a seeded random stream of documents (1–5 templates from a segment grammar, 0–3 variables, up to 9 methods, sometimes a template and its " +
 			"trailing-slash twin; 0–3 document-level servers with different base paths from six shapes, path-item level servers on one or two path items in 22% of the documents) with " +
 			"requests built from the document's own templates and mutations of them, sent through the forms of every declared server. Observed per case: error kind, route template, method, " +
-			"operation identity, path parameters and the identity of Route.Server. Non-trivial = the model reports a branch other than the bare not-found of a server-less document.",
+			"operation identity, path parameters and the identity of Route.Server; after every routed request a second FindRoute with another declared method is made and the first route re-inspected. Non-trivial = the model reports a branch other than the bare not-found of a server-less document.",
 		Exhaustive: true,
 		Gen:        genC09,
 		Run:        runC09,
@@ -237,8 +237,31 @@ func runC09(c hx.Case) any {
 			opOK = true
 		}
 	}
-	return map[string]any{"kind": "route", "template": route.Path, "method": route.Method, "params": ps, "opOK": opOK,
+	out := map[string]any{"kind": "route", "template": route.Path, "method": route.Method, "params": ps, "opOK": opOK,
 		"server": c09SrvRef(b.doc, route.Server)}
+	// call sequence: a later FindRoute on the same router (same URL, another declared method) must not change the route
+	// that was returned first — the caller still holds it
+	if pi := b.doc.Paths.Value(route.Path); pi != nil {
+		var others []string
+		for m := range pi.Operations() {
+			if m != req.Method {
+				others = append(others, m)
+			}
+		}
+		sort.Strings(others)
+		if len(others) > 0 {
+			m0, op0, srv0, path0 := route.Method, route.Operation, route.Server, route.Path
+			req2 := c09Request(c)
+			req2.Method = others[0]
+			route2, _, err2 := b.router.FindRoute(req2)
+			if route.Method != m0 || route.Operation != op0 || route.Server != srv0 || route.Path != path0 {
+				out["mutatedByLaterCall"] = fmt.Sprintf("after FindRoute(%s …) the route returned for %s says method %q", others[0], m0, route.Method)
+			} else if err2 == nil && route2 != nil && route2 == route {
+				out["mutatedByLaterCall"] = "two FindRoute calls with different methods returned the same *Route"
+			}
+		}
+	}
+	return out
 }
 
 func c09SameParams(a, b any) bool {
@@ -296,6 +319,9 @@ func cmpC09(c hx.Case, impl any, reply map[string]any) hx.Verdict {
 	}
 	// implementation vs spec; a percent-encoded request is judged under both readings of "the request path" (escaped and
 	// decoded) and has to satisfy the property under one of them
+	if msg := jstr(im, "mutatedByLaterCall"); msg != "" {
+		return hx.Verdict{IM: false, IS: false, Detail: "a returned route does not keep the operation of its request: " + msg}
+	}
 	imDetail := v.Detail
 	c09Judge(c, im, kind, spec, &v)
 	if !v.IS {
